@@ -202,7 +202,8 @@ def is_state(prog, rep, tag):
         # the compared state is decoded from this frame's response iterator, without adaptors
         un = [c for c in b.calls() if c.is_("EtherCrabWireRead::unpack_from_slice") and "AlControl" in (c.res_s or "")]
         it = [c for c in b.calls() if (c.decl_s or "").endswith("Iterator::next") and has_root(pr.of_operand(c.args[0]), "call", "ReceivedFrame::into_pdu_iter")]
-        d["decoded-from-response"] = len(un) == 1 and len(it) == 1 and any(x[0] == "call" and x[1].endswith("::next") for x in pr.of_operand(un[0].args[0]))
+        pw = Prov(b, follow_all={"ReceivedPdu::wkc", "ReceivedPdu::maybe_wkc"})
+        d["decoded-from-response"] = len(un) == 1 and len(it) == 1 and any(x[0] == "call" and x[1].endswith("::next") for x in pw.of_operand(un[0].args[0]))
         adapt = [c for c in b.calls() if (c.decl_s or "").split("::")[-2:-1] == ["Iterator"] and not (c.decl_s or "").endswith("Iterator::next") and has_root(pr.of_operand(c.args[0]), "call", "ReceivedFrame::into_pdu_iter")]
         d["no-iterator-adaptor"] = not adapt
         if len(it) == 1 and al:
